@@ -91,25 +91,36 @@ pub fn record(rest: &[String]) -> anyhow::Result<()> {
     let globals = run::globals();
     let cat = catalogue();
     let mut rng = util::Rng(seed ^ 0x5151);
-    // watchdog: a call that does not return within 20 s is a hang -> abort the process
+    // watchdog: a call is a hang when it has consumed 60 s of CPU time of this process without
+    // returning (CPU time, not wall clock: the box may be heavily loaded), or made no progress
+    // for 15 minutes of wall clock (a sleeping deadlock) -> abort the process
     let beat = Arc::new(AtomicU64::new(0));
     {
         let beat = beat.clone();
         std::thread::spawn(move || {
+            fn cpu_ticks() -> u64 {
+                // utime + stime of /proc/self/stat (fields 14 and 15), in clock ticks (100 Hz)
+                let s = std::fs::read_to_string("/proc/self/stat").unwrap_or_default();
+                let rest = s.rsplit(')').next().unwrap_or("");
+                let f: Vec<&str> = rest.split_whitespace().collect();
+                let g = |i: usize| f.get(i).and_then(|x| x.parse::<u64>().ok()).unwrap_or(0);
+                g(11) + g(12)
+            }
             let mut last = 0;
-            let mut same = 0;
+            let mut cpu0 = cpu_ticks();
+            let mut t0 = std::time::Instant::now();
             loop {
                 std::thread::sleep(std::time::Duration::from_secs(2));
                 let b = beat.load(Ordering::Relaxed);
                 if b == last {
-                    same += 1;
-                    if same >= 10 {
+                    if cpu_ticks().saturating_sub(cpu0) >= 6000 || t0.elapsed().as_secs() >= 900 {
                         eprintln!("watchdog: call hangs");
                         std::process::exit(97);
                     }
                 } else {
-                    same = 0;
                     last = b;
+                    cpu0 = cpu_ticks();
+                    t0 = std::time::Instant::now();
                 }
             }
         });
